@@ -148,9 +148,12 @@ Proof. exact unbuffered_can_leak. Qed.
 Theorem C20_timing : forall x,
   0 < xp_timeout x /\ 0 <= xp_cut x <= xp_timeout x /\
   (match xp_latency x with Some d => 0 <= d | None => True end -> 0 <= xp_request_end x <= xp_timeout x) /\
-  so_fg_latency (swr_predict x) = 0 /\ so_bg_calls (swr_predict x) = 1 /\ so_goroutines_left (swr_predict x) = 0.
+  so_fg_latency (swr_predict x) = 0 /\ so_bg_calls (swr_predict x) = 1 /\ so_goroutines_left (swr_predict x) = 0 /\
+  (* whatever deadline the caller's context has, that of the background request is no later than the timeout *)
+  0 <= so_deadline (swr_predict x) <= xp_timeout x.
 Proof.
-  intros x. pose proof (request_end_bounds x) as [A B]. repeat split; try apply xp_timeout_pos; try apply A; try (apply B; assumption).
+  intros x. pose proof (request_end_bounds x) as [A B]. pose proof (bg_deadline_bounds x) as D.
+  repeat split; try apply xp_timeout_pos; try apply A; try (apply B; assumption); apply D.
 Qed.
 Print Assumptions C20_timing.
 
